@@ -51,7 +51,12 @@ theorem isPodToItself_ip (r : CSet) (k : KPeer) (a b c d : String) (f g : Bool) 
 /-- `isPeerFocusWorkload` on a workload peer -/
 theorem isPeerFocusWorkload_eq (f n : String) (pod : Pod) :
     Gen.isPeerFocusWorkload f (if pod.ownerName == "" then pod.name else pod.ownerName)
-      (pod.ns ++ "/" ++ (if pod.ownerName == "" then pod.name else pod.ownerName)) = Engine.isFocus f (.wl n pod) := by
+      (pod.ns ++ "/" ++ (if pod.ownerName == "" then pod.name else pod.ownerName)) false = Engine.isFocus f (.wl n pod) := by
   simp [Gen.isPeerFocusWorkload, Engine.isFocus, Bool.or_assoc]
+
+/-- `isPeerFocusWorkload` on an ip-block (name "", namespace/name form "/"): only "no focus" includes it -/
+theorem isPeerFocusWorkload_ip (f name nsName : String) (r : Iv) :
+    Gen.isPeerFocusWorkload f name nsName true = Engine.isFocus f (.ip r) := by
+  simp [Gen.isPeerFocusWorkload, Engine.isFocus]
 
 end Netpol.Tie.Consts
